@@ -346,7 +346,8 @@ class Gen:
         for _ in range(rng.choice([1, 1, 2])):
             xs.append({"k": "nl"})
             xs += self.inlines(allow_nl=False, rich=rng.random() < 0.4, lo=0, hi=3)
-        blk = {"k": "directiveML", "name": d["name"], "domain": d["domain"], "arg": xs, "kids": []}
+        # nextLine: nothing but the directive's name on its own line and the text right below it, without a blank line
+        blk = {"k": "directiveML", "name": d["name"], "domain": d["domain"], "nextLine": rng.random() < 0.4, "arg": xs, "kids": []}
         if rng.random() < 0.6:
             blk["kids"] = self.body(depth + 1, rng.randint(1, 2))
         return blk
